@@ -22,29 +22,32 @@ class Prediction(Observer):
         self.pushed = []
         self.outcomes = []        # per probe: dict
         self.requests = []        # (t_us, requester, ns, target)
+        self.in_handler = False
 
     def _probe(self, name):
         self.probes[name] = self.probes.get(name, 0) + 1
 
     def on_request(self, sim, inst, identifier, rtype, body):
         from supvisors.ttypes import RequestHeaders
-        if self.active is not None:
+        if self.active is not None and self.in_handler:
             self.pushed.append((inst.nick, rtype.name, identifier))
         if rtype == RequestHeaders.START_PROCESS:
             self.requests.append((sim.now_us, inst.nick, body[0], identifier))
 
     def on_publication(self, sim, inst, ptype, body):
         from supvisors.ttypes import PublicationHeaders
-        if self.active is not None and ptype != PublicationHeaders.TICK:
+        if self.active is not None and self.in_handler and ptype != PublicationHeaders.TICK:
             self.pushed.append((inst.nick, 'publication', ptype.name))
 
     def before_rpc(self, sim, dst, rec, params):
         if self.active is not None and rec['via'] == 'client' and rec['method'].startswith('supvisors.test_start'):
             with frozen(sim, dst):
                 self.before = full_snapshot(dst)
+            self.in_handler = True   # what is pushed from here to on_wire is pushed by the handler itself
 
     def on_wire(self, sim, rec):
         if self.active is not None and rec['via'] == 'client' and rec['method'].startswith('supvisors.test_start'):
+            self.in_handler = False
             inst = sim.instances.get(rec['dst'])
             if inst is not None and inst.alive and getattr(self, 'before', None) is not None:
                 with frozen(sim, inst):
